@@ -58,7 +58,7 @@ def gen_cases(tier, seed):
     for i in range(60 if tier == "quick" else 400):
         cases.append({"kind": "history", "n_ops": [10, 20, 40][i % 3], "i": i})
     for i in range(100 if tier == "quick" else 400):
-        cases.append({"kind": "helper", "scenario": ["ui_json_read", "monitored_copy", "copy_out", "context_manager", "fetch_active", "ui_json_write", "elevate_then_default", "ui_json_then_default", "fallback_read_only", "helper_requests_read", "save_as_read_only", "read_session_of_writable_workspace"][i % 12], "i": i})
+        cases.append({"kind": "helper", "scenario": ["ui_json_read", "monitored_copy", "copy_out", "context_manager", "fetch_active", "ui_json_write", "elevate_then_default", "ui_json_then_default", "fallback_read_only", "helper_requests_read", "save_as_read_only", "read_session_of_writable_workspace", "reader_next_to_writer"][i % 13], "i": i})
     return cases
 
 
@@ -719,6 +719,34 @@ def run_helper(case, rec, rng, path, index, d):
         ro.close()
         judge_close(rec, watch2, label, "save_as")
         rec.check("C10.bytes", watch.sha() == watch.h0, op="save_as", cls=label, attr=sc + ":original", detail="save_as changed the file it was read from")
+    elif sc == "reader_next_to_writer":
+        # the same process holds the file through a writable workspace; a second workspace object opens it for reading: what goes
+        # through the reader is refused like in any read-only session (HDF5 itself hands the reader a handle in the writer's mode)
+        writer = Workspace(path)
+        try:
+            ro = Workspace(path, mode="r")
+            rec.see("reader-handle-mode:" + ro.geoh5.mode)
+            e = ro.get_entity(obj_uid)[0]
+            from geoh5py.objects import Points
+
+            writes = [("rename", lambda: setattr(e, "name", "x")), ("create", lambda: Points.create(ro, vertices=np.zeros((2, 3)), name="new")), ("remove", lambda: ro.remove_entity(ro.get_entity(obj_uid)[0])), ("header", lambda: setattr(ro, "ga_version", "9.9"))]
+            for wname, fn in writes:
+                exc = None
+                try:
+                    fn()
+                except Exception as e2:  # noqa: BLE001
+                    if not exc_origin(e2)[0]:
+                        raise
+                    exc = e2
+                rec.check("C10.must-raise", exc is not None, op="write-through-reader:" + wname, cls=label, attr=sc, detail=f"{wname} through a workspace opened with mode='r' was accepted (the process also holds the file for writing)")
+                rec.see("calls-judged")
+            e = None
+            ro.close()
+            rec.check("C10.close", bool(writer._geoh5), op="close-reader", cls=label, attr=sc, detail="closing the reader closed the writer's handle")  # noqa: SLF001
+        finally:
+            writer.close()
+        with Workspace(path, mode="r") as chk:
+            rec.check("C10.bytes", chk.get_entity(obj_uid)[0] is not None and chk.get_entity(obj_uid)[0].name != "x" and chk.ga_version != "9.9" and not chk.get_entity("new")[0], op="write-through-reader", cls=label, attr=sc + ":content", detail="something written through the read-only workspace reached the file")
     elif sc == "read_session_of_writable_workspace":
         # a workspace object constructed writable, then closed and opened again for reading only: that session is read-only,
         # whatever the object was constructed with and whatever flags the session left behind
